@@ -312,7 +312,7 @@ func exploreIsolated(r *Run, s HarnessSpec, id string) (enum.Stats, []enum.Viola
 				go func() { done <- cmd.Wait() }()
 				var werr error
 				hung := false
-				// per-case watchdog: cases take micro- to milliseconds; 40 s without journal progress is an endless loop
+				// per-case watchdog: cases take micro- to milliseconds; 120 s without journal progress is an endless loop
 				tick := time.NewTicker(time.Second)
 			wait:
 				for {
@@ -323,7 +323,7 @@ func exploreIsolated(r *Run, s HarnessSpec, id string) (enum.Stats, []enum.Viola
 						jmu.Lock()
 						idle := time.Since(lastAt)
 						jmu.Unlock()
-						if idle > 40*time.Second {
+						if idle > 120*time.Second {
 							hung = true
 							cmd.Process.Kill()
 							werr = <-done
